@@ -7,9 +7,9 @@ import (
 )
 
 func init() {
-	register("C15", []string{".", "./sstable"}, runC15)
+	register("C15", []string{".", "./sstable", "./internal/overlap"}, runC15)
 	propTechnique["C15"] = "SSA must-facts dataflow over the sstable writers' add and close paths (every committed key widens the recorded sequence range; the recorded bounds are set before the block they describe is written), loop-examines-all, value provenance"
-	propExplain["C15"] = "Decides one clause of C15 — 'every file's recorded bounds and sequence range contain its contents' — on the producing side, where it is visible in the shape of the sstable writers; the ordering of versions across levels and the non-overlap of files within a level are functions of runtime keys and are not decided. (M1) in both raw writers every path that appends a point key, a range deletion or a range key to a block and returns without error has passed WriterMetadata.updateSeqNum with that key's own sequence number (the columnar span encoder: for every key of the span); (M2) the smallest point / range-deletion key is recorded on every such path unless one was recorded before; the largest point key is recorded whenever the columnar writer enqueues a data block, from that block's last key; in both Close paths the range-deletion and range-key blocks are written only after their largest (columnar: and smallest) bounds were recorded. A table whose recorded sequence range or bounds are narrower than its contents is placed by flush, compaction, ingestion and the level checker as if those keys did not exist. (N1, shared with C43) the functions that compute the bounds of the virtual tables an excise leaves behind treat a nil seek as 'no keys on that side' only after consulting the iterator's Error() — otherwise a read error shrinks the recorded bounds below the contents. Does not decide that the bounds are tight, nor anything about version edits or level assignment."
+	propExplain["C15"] = "Decides one clause of C15 — 'every file's recorded bounds and sequence range contain its contents' — on the producing side, where it is visible in the shape of the sstable writers; the ordering of versions across levels and the non-overlap of files within a level are functions of runtime keys and are not decided. (M1) in both raw writers every path that appends a point key, a range deletion or a range key to a block and returns without error has passed WriterMetadata.updateSeqNum with that key's own sequence number (the columnar span encoder: for every key of the span); (M2) the smallest point / range-deletion key is recorded on every such path unless one was recorded before; the largest point key is recorded whenever the columnar writer enqueues a data block, from that block's last key; in both Close paths the range-deletion and range-key blocks are written only after their largest (columnar: and smallest) bounds were recorded. A table whose recorded sequence range or bounds are narrower than its contents is placed by flush, compaction, ingestion and the level checker as if those keys did not exist. (N1, shared with C43) the functions that compute the bounds of the virtual tables an excise leaves behind treat a nil seek as 'no keys on that side' only after consulting the iterator's Error() — otherwise a read error shrinks the recorded bounds below the contents; likewise the data-overlap probe (internal/overlap) that decides how deep an ingested table may be placed: a read error taken for 'no key in the region' puts the newest version of a key underneath an older one. Does not decide that the bounds are tight, nor anything about version edits or level assignment."
 }
 
 func runC15(c *Ctx) {
@@ -18,12 +18,13 @@ func runC15(c *Ctx) {
 	// only after the iterator's Error() was consulted.
 	c43N1Only = func(top *ssa.Function) bool {
 		n := top.Name()
-		return n == "determineLeftTableBounds" || n == "determineRightTableBounds" || n == "determineExcisedTableBounds" || n == "exciseTable"
+		return n == "determineLeftTableBounds" || n == "determineRightTableBounds" || n == "determineExcisedTableBounds" || n == "exciseTable" ||
+			(top.Pkg != nil && top.Pkg.Pkg.Path() == pkgAlias["overlap"]) // the data-overlap probe ingestTargetLevel relies on
 	}
 	before := len(c.Obs)
 	runC43N1(c)
 	c43N1Only = nil
-	if len(c.Obs)-before < 2 {
+	if len(c.Obs)-before < 3 {
 		c.Unresolved("C43.N1", "the excise bound computations (determineLeft/RightTableBounds) were not found by the nil-means-exhausted rule")
 	}
 	updSeq := CallTo("sst.(*WriterMetadata).updateSeqNum")
